@@ -19,6 +19,7 @@ var (
 )
 
 type stream struct {
+	tz    int // local zone of the process, seconds east of UTC
 	thr   int
 	known []string
 	recs  []string // rec op lines
@@ -142,6 +143,9 @@ func genStream(r *prng.R, maxLen int, kind string) stream {
 	s := stream{thr: r.Range(2, 4)}
 	if r.Chance(10) {
 		s.thr = 1
+	}
+	if r.Chance(40) { // the host's local zone must not leak into the persisted (UTC) timestamps
+		s.tz = prng.Pick(r, []int{3 * 3600, -(7*3600 + 1800), 5*3600 + 1800, -11 * 3600, 14 * 3600})
 	}
 	var pool []string
 	closed := false
@@ -306,7 +310,11 @@ func faultRun(r *prng.R, n int) (string, bool) {
 }
 
 func (s stream) header() []string {
-	ops := []string{fmt.Sprintf("cfg thr=%d", s.thr)}
+	cfg := fmt.Sprintf("cfg thr=%d", s.thr)
+	if s.tz != 0 {
+		cfg += fmt.Sprintf(" tz=%d", s.tz)
+	}
+	ops := []string{cfg}
 	for _, k := range s.known {
 		ops = append(ops, "known u="+proto.Enc(k))
 	}
